@@ -288,6 +288,10 @@ func (p *program) loadProgram() error {
 	}
 
 	p.loadedPackages = pkgs
+	// The packages are loaded for the target platform (GOARCH), which may differ from the host's.
+	if len(pkgs) != 0 && pkgs[0].TypesSizes != nil {
+		sizes = pkgs[0].TypesSizes
+	}
 	p.ctx = linter.NewContext(p.fset, sizes)
 	goVersion, err := linter.ParseGoVersion(p.goVersion)
 	if err != nil {
